@@ -200,7 +200,14 @@ def check_case(case):
             out.append(("write-wrong-instant", f"{value!r} -> {text!r}: denotes instant off by {dist(inst, true_us)} us"))
         if poff != off:
             out.append(("write-wrong-offset", f"{value!r} -> {text!r}: printed offset {poff} min, value has {off} min"))
-        if not case.get("noname") and pname != value.tzname():
+        names = {value.tzname()}
+        if not is_time:
+            # rounding to the millisecond may carry the value across a change of the zone's name: either name will do then
+            try:
+                names.add((value + dt.timedelta(microseconds=500)).tzname())
+            except OverflowError:
+                pass
+        if not case.get("noname") and pname not in names:
             out.append(("write-wrong-name", f"{value!r} -> {text!r}"))
         # write then read
         try:
